@@ -32,6 +32,7 @@ def rules(ctx):
     c116(ctx)
     c117(ctx)
     c118(ctx)
+    c119(ctx)
 
 
 def c115(ctx):
@@ -239,6 +240,39 @@ def c118(ctx):
                       "%s stores the resting position (First / Last) and can still fail afterwards: after a failed open or a failed inner move the cursor "
                       "is parked at the far end, and a retry of the same call answers `exhausted` for a file that was never read" % m, pt=w, path=q)
     ctx.floor(R, "lazy cursor: stores of a resting position in seek / next / prev", n, 3)
+
+
+def c119(ctx):
+    R = "C11.9"
+    ctx.declare(R, "the merge orders its children by the whole entry key (key ascending, then timestamp descending) going forward and by exactly "
+                   "the reverse going backward: the two positioned-vs-positioned arms of Comparator::is_less compare the same two KeyRefs with "
+                   "opposite operators (or the same operator with the operands swapped) -- versions of one key that sit in different children come out "
+                   "oldest first on the way back, which the pruning stage above relies on")
+    fs = [f for k, f in ctx.prog.fns.items() if f.crate == "sst" and re.search(r"merging_cursor::Comparator::is_less$", f.skey)]
+    ctx.floor(R, "Comparator::is_less", len(fs), 1)
+    for f in fs:
+        cmps = []
+        for b, t in f.calls():
+            ck = callee_skey(t) or t.get("decl") or ""
+            m = re.search(r"PartialOrd::(lt|gt|le|ge)$|Ord::(cmp)$|PartialOrd::(partial_cmp)$", ck)
+            if not m or len(t["args"]) != 2:
+                continue
+            op = m.group(1) or m.group(2) or m.group(3)
+            sides = []
+            for a in t["args"]:
+                src = P.origins(f, a)
+                whole = any(x["k"] == "call" and re.search(r"Cursor>?::key$", x["callee"]) for x in src) and not any(x["k"] == "field" and x["f"] in ("key", "timestamp") for x in src)
+                who = {y["i"] for x in src if x["k"] == "call" and re.search(r"Cursor>?::key$", x["callee"]) for y in P.origins(f, x["t"]["args"][0]) if y["k"] == "param"}
+                sides.append((whole, tuple(sorted(who))))
+            cmps.append((op, sides, P.term_pt(f, b.idx)))
+        whole_cmps = [(op, sd) for op, sd, _pt in cmps if all(w for w, _ in sd)]
+        partial = [pt for op, sd, pt in cmps if not all(w for w, _ in sd)]
+        forms = {(op, sd[0][1] < sd[1][1]) for op, sd in whole_cmps}
+        mirror = forms in ({("lt", True), ("gt", True)}, {("lt", True), ("lt", False)}, {("gt", True), ("gt", False)}, {("lt", False), ("gt", False)})
+        ctx.check(R, f, "directions-are-mirror-images", mirror and not partial, "forward and backward compare the whole keys with mirrored operators (%s)" % sorted(forms),
+                  "Comparator::is_less does not order its children by the whole key in one direction and by its exact reverse in the other (%s%s): a tie "
+                  "on the user key that is broken the same way in both directions hands the versions of a key to the pruning stage newest-first on the "
+                  "way back" % (sorted(forms), "; parts of the key are compared separately" if partial else ""), pt=(partial or [None])[0])
 
 
 def key_some_guard(f, pt, recv_names):
